@@ -92,6 +92,16 @@ CLAIMED = {
               'CV-LOCK, CV-NOTIFY (every predicate write is followed by a notify on all paths), LOCK-SCOPE, DROP-CLOSE, SPAWN-BOUND '
               'for the work queue and the four MT types; PANIC-WAKE.',
               'termination of the codec work a worker does on one unit; std primitives behave as modelled.'),
+    'C11': _c('static: encoder/decoder twin comparison on MIR provenance expressions; who-builds-what table; 32-bit wrap rule',
+              'FILTER-INVERSE: in every BCJ converter the encoder and decoder definitions of a value are mirror images '
+              '(wrapping_add vs wrapping_sub over identical operands) wherever both directions define it; the delta coder reads and '
+              'writes its history at the same indices in both directions, subtracts resp. adds, and keeps the unfiltered byte; every '
+              'BCJWriter/BCJReader constructor pair uses the same BCJFilter constructor with is_encoder = true / false. POS-WRAP: '
+              'position arithmetic is modulo 2^32. TAIL-FORWARD: a filter writer never forwards bytes its filter has not '
+              'processed (reports the BCJWriter defect as a known finding).',
+              'the numeric identity decode(encode(x)) = x itself, equality with the reference implementation\'s output, the BCJ2 '
+              'decoder (no encoder twin in the crate), the RISC-V and ARM64 instruction repacking where the two directions are '
+              'structurally different (reported as not decided), buffer-boundary handling inside BCJReader.'),
     'C12': _c('static: contradiction rule by value-set evaluation + control dependence',
               'BYTE-CONTRA (no success exit dead by contradictory byte tests), MULTISTREAM-GUARD, STREAM-RESET (padding % 4 on both '
               'the next-stream and the end-of-input exit; everything the first-stream initialiser stores is stored again per '
@@ -142,7 +152,4 @@ CLAIMED = {
 }
 
 NOT_APPLICABLE = {
-    'C11': ('numeric inverse/equality property over byte values (address conversion modulo 2^32, equality with the reference '
-            'filter output, BCJ2 reconstruction); no structural clause beyond what the existing BCJ/delta round-trip tests '
-            'already force, so a static rule would add no detection (DESIGN.md section 5)'),
 }
